@@ -398,4 +398,270 @@ theorem setDataRaw_rowAt (f : BFreq) (nv : Nat) (desc : String) (p0 : Int) (ps :
 
 end
 
+
+theorem split_trailing {α : Type} (p : α → Bool) (l : List α) :
+    l = (l.reverse.dropWhile p).reverse ++ (l.reverse.takeWhile p).reverse := by
+  have := List.takeWhile_append_dropWhile (p := p) (l := l.reverse)
+  have h2 := congrArg List.reverse this
+  simp only [List.reverse_append, List.reverse_reverse] at h2
+  exact h2.symm
+
+theorem mem_takeWhile' {α : Type} (p : α → Bool) (l : List α) (x : α) (h : x ∈ l.takeWhile p) : p x = true ∧ x ∈ l := by
+  induction l with
+  | nil => simp at h
+  | cons a l ih =>
+    simp only [List.takeWhile_cons] at h
+    by_cases ha : p a = true
+    · simp only [ha, if_true, List.mem_cons] at h
+      rcases h with rfl | h
+      · exact ⟨ha, by simp⟩
+      · exact ⟨(ih h).1, List.mem_cons_of_mem _ (ih h).2⟩
+    · simp [ha] at h
+
+theorem fill_fun {α : Type} (g : Nat → α) (idxs : List Nat) (acc : List α) (hlt : ∀ k ∈ idxs, k < acc.length) (k : Nat) :
+    ((idxs.zip (idxs.map g)).foldl (fun acc pr => acc.set pr.1 pr.2) acc)[k]? = if k ∈ idxs then some (g k) else acc[k]? := by
+  induction idxs generalizing acc with
+  | nil => simp
+  | cons k0 ks ih =>
+    simp only [List.map_cons, List.zip_cons_cons, List.foldl_cons]
+    rw [ih (acc.set k0 (g k0)) (fun j hj => by simpa using hlt j (List.mem_cons_of_mem _ hj))]
+    by_cases h1 : k ∈ ks
+    · simp [h1]
+    · simp only [h1, if_false, List.mem_cons, or_false]
+      by_cases h2 : k = k0
+      · subst h2; simp [hlt k (by simp)]
+      · simp [h2, List.getElem?_set_ne (Ne.symm h2)]
+
+section
+variable {V : Type}
+
+theorem eq_nanRow_of_allNan (r : List (Option V)) (nv : Nat) (h1 : allNan r = true) (h2 : r.length = nv) : r = nanRow nv := by
+  subst h2
+  unfold nanRow
+  apply List.ext_getElem (by simp)
+  intro i hi _
+  simp only [List.getElem_replicate]
+  have : r[i].isNone = true := by
+    unfold allNan at h1
+    exact List.all_eq_true.mp h1 _ (List.getElem_mem hi)
+  cases hq : r[i] with
+  | none => rfl
+  | some x => rw [hq] at this; simp at this
+
+/-- rows that are all-NaN before and after the core do not matter for `rowAt` -/
+theorem rowAt_core (f : BFreq) (st : Int) (nv : Nat) (d1 d2 : String) (L M T : List (List (Option V)))
+    (hL : ∀ r ∈ L, r = nanRow nv) (hT : ∀ r ∈ T, r = nanRow nv) (t : Int) :
+    (⟨f, st, nv, L ++ M ++ T, d1⟩ : Ser V).rowAt t = (⟨f, st + (L.length : Int), nv, M, d2⟩ : Ser V).rowAt t := by
+  simp only [Ser.rowAt]
+  by_cases h1 : st ≤ t
+  · simp only [h1, if_true]
+    by_cases h2 : (t - st).toNat < L.length
+    · have h3 : ¬ st + (L.length : Int) ≤ t := by omega
+      simp only [h3, if_false]
+      rw [List.append_assoc, List.getElem?_append_left h2]
+      have : L[(t - st).toNat]? = some L[(t - st).toNat] := List.getElem?_eq_getElem h2
+      rw [this]
+      exact hL _ (List.getElem_mem h2)
+    · have h3 : st + (L.length : Int) ≤ t := by omega
+      simp only [h3, if_true]
+      rw [List.append_assoc, List.getElem?_append_right (by omega)]
+      have e : (t - st).toNat - L.length = (t - (st + (L.length : Int))).toNat := by omega
+      rw [e]
+      by_cases h4 : (t - (st + (L.length : Int))).toNat < M.length
+      · rw [List.getElem?_append_left h4]
+      · rw [List.getElem?_append_right (by omega), List.getElem?_eq_none (l := M) (by omega)]
+        cases hq : T[(t - (st + (L.length : Int))).toNat - M.length]? with
+        | none => rfl
+        | some r => simp only [Option.getD_some, Option.getD_none]; exact hT r (List.mem_of_getElem? hq)
+  · have h3 : ¬ st + (L.length : Int) ≤ t := by omega
+    simp [h1, h3]
+
+/-- **`Series.trim()` does not change any row**: the trimmed series has the same row as the untrimmed one at every period
+(NaN rows outside) -/
+theorem trim_rowAt (s : Ser V) (hrows : ∀ r ∈ s.rows, r.length = s.nv) (t : Int) : s.trim.rowAt t = s.rowAt t := by
+  obtain ⟨f, st, nv, rows, d⟩ := s
+  simp only at hrows
+  have h1 := (List.takeWhile_append_dropWhile (p := allNan) (l := rows)).symm
+  have h2 := split_trailing allNan (rows.dropWhile allNan)
+  have hL : ∀ r ∈ rows.takeWhile allNan, r = nanRow nv := by
+    intro r hr
+    exact eq_nanRow_of_allNan r nv (mem_takeWhile' _ _ _ hr).1 (hrows r (mem_takeWhile' _ _ _ hr).2)
+  have hT : ∀ r ∈ ((rows.dropWhile allNan).reverse.takeWhile allNan).reverse, r = nanRow nv := by
+    intro r hr
+    have hr' := List.mem_reverse.mp hr
+    refine eq_nanRow_of_allNan r nv (mem_takeWhile' _ _ _ hr').1 (hrows r ?_)
+    have := (mem_takeWhile' _ _ _ hr').2
+    exact (List.dropWhile_sublist allNan).subset (List.mem_reverse.mp this)
+  have hdecomp : rows = rows.takeWhile allNan ++ ((rows.dropWhile allNan).reverse.dropWhile allNan).reverse
+      ++ ((rows.dropWhile allNan).reverse.takeWhile allNan).reverse := by
+    rw [List.append_assoc, ← h2]; exact h1
+  have key := rowAt_core f st nv d d (rows.takeWhile allNan) ((rows.dropWhile allNan).reverse.dropWhile allNan).reverse
+    ((rows.dropWhile allNan).reverse.takeWhile allNan).reverse hL hT t
+  rw [← hdecomp] at key
+  rw [key]
+  unfold Ser.trim
+  simp only
+  by_cases he : (((rows.dropWhile allNan).reverse.dropWhile allNan).reverse).isEmpty = true
+  · simp only [he, if_true]
+    have : ((rows.dropWhile allNan).reverse.dropWhile allNan).reverse = [] := List.isEmpty_iff.mp he
+    rw [this]
+    simp [Ser.rowAt, Ser.empty]
+  · simp only [he, Bool.false_eq_true, if_false]
+
+/-- rows set up from a function of the period: every written period (repetitions allowed, any order) holds its own row -/
+theorem setDataRaw_rowAt_fun (f : BFreq) (nv : Nat) (desc : String) (p0 : Int) (ps : List Int) (F : Int → List (Option V)) (p : Int) :
+    (setDataRaw f nv desc p0 ps ((p0 :: ps).map F)).rowAt p = if p ∈ p0 :: ps then F p else nanRow nv := by
+  have hlo := foldl_min_le p0 ps
+  have hhi := le_foldl_max p0 ps
+  have hconv : ((p0 :: ps).zip ((p0 :: ps).map F)).foldl (fun acc pr => acc.set (pr.1 - ps.foldl min p0).toNat pr.2)
+        (List.replicate (ps.foldl max p0 - ps.foldl min p0 + 1).toNat (nanRow nv))
+      = ((((p0 :: ps).map (fun p => (p - ps.foldl min p0).toNat)).zip
+          (((p0 :: ps).map (fun p => (p - ps.foldl min p0).toNat)).map (fun (k : Nat) => F (ps.foldl min p0 + (k : Int))))).foldl
+            (fun acc pr => acc.set pr.1 pr.2)
+        (List.replicate (ps.foldl max p0 - ps.foldl min p0 + 1).toNat (nanRow nv))) := by
+    have e : ((p0 :: ps).map (fun p => (p - ps.foldl min p0).toNat)).map (fun (k : Nat) => F (ps.foldl min p0 + (k : Int)))
+        = (p0 :: ps).map F := by
+      rw [List.map_map]
+      apply List.map_congr_left
+      intro x hx
+      have := hlo x hx
+      simp only [Function.comp]
+      congr 1
+      omega
+    rw [e, List.zip_map_left, List.foldl_map]
+    rfl
+  have hidx_lt : ∀ k ∈ (p0 :: ps).map (fun p => (p - ps.foldl min p0).toNat),
+      k < (List.replicate (ps.foldl max p0 - ps.foldl min p0 + 1).toNat (nanRow nv : List (Option V))).length := by
+    intro k hk
+    obtain ⟨x, hx, rfl⟩ := List.mem_map.mp hk
+    have := hlo x hx; have := hhi x hx
+    simp; omega
+  simp only [setDataRaw, Ser.rowAt]
+  by_cases h1 : ps.foldl min p0 ≤ p
+  · simp only [h1, if_true]
+    rw [hconv, fill_fun _ _ _ hidx_lt]
+    by_cases hm : p ∈ p0 :: ps
+    · have : (p - ps.foldl min p0).toNat ∈ (p0 :: ps).map (fun p => (p - ps.foldl min p0).toNat) :=
+        List.mem_map.mpr ⟨p, hm, rfl⟩
+      simp only [this, hm, if_true, Option.getD_some]
+      congr 1
+      omega
+    · have : (p - ps.foldl min p0).toNat ∉ (p0 :: ps).map (fun p => (p - ps.foldl min p0).toNat) := by
+        intro hk
+        obtain ⟨x, hx, hxe⟩ := List.mem_map.mp hk
+        have := hlo x hx
+        have : x = p := by omega
+        exact hm (this ▸ hx)
+      simp only [this, hm, if_false]
+      cases hq : (List.replicate (ps.foldl max p0 - ps.foldl min p0 + 1).toNat (nanRow nv : List (Option V)))[(p - ps.foldl min p0).toNat]? with
+      | none => rfl
+      | some r => simp only [Option.getD_some]; exact (List.mem_replicate.mp (List.mem_of_getElem? hq)).2
+  · have hm : p ∉ p0 :: ps := fun hm => h1 (hlo p hm)
+    simp [h1, hm]
+
+end
+
+
+theorem foldl_set_all {α : Type} (P : α → Prop) (l : List (Nat × α)) (acc : List α) (h1 : ∀ x ∈ acc, P x) (h2 : ∀ pr ∈ l, P pr.2) :
+    ∀ x ∈ l.foldl (fun acc pr => acc.set pr.1 pr.2) acc, P x := by
+  induction l generalizing acc with
+  | nil => exact h1
+  | cons pr rest ih =>
+    simp only [List.foldl_cons]
+    apply ih
+    · intro x hx
+      rcases List.mem_or_eq_of_mem_set hx with h | h
+      · exact h1 x h
+      · rw [h]; exact h2 pr (by simp)
+    · exact fun q hq => h2 q (List.mem_cons_of_mem _ hq)
+
+section
+variable {V : Type}
+
+theorem setDataRaw_rows_width (f : BFreq) (nv : Nat) (desc : String) (p0 : Int) (ps : List Int) (rows : List (List (Option V)))
+    (hr : ∀ r ∈ rows, r.length = nv) : ∀ r ∈ (setDataRaw f nv desc p0 ps rows).rows, r.length = nv := by
+  simp only [setDataRaw]
+  have := foldl_set_all (fun r : List (Option V) => r.length = nv)
+    (((p0 :: ps).zip rows).map (fun pr => ((pr.1 - ps.foldl min p0).toNat, pr.2)))
+    (List.replicate (ps.foldl max p0 - ps.foldl min p0 + 1).toNat (nanRow nv))
+    (by intro x hx; rw [(List.mem_replicate.mp hx).2]; simp [nanRow])
+    (by
+      intro pr hpr
+      obtain ⟨q, hq, rfl⟩ := List.mem_map.mp hpr
+      exact hr _ (List.of_mem_zip hq).2)
+  rw [List.foldl_map] at this
+  exact this
+
+/-- **the re-imported series, period by period** (any selection of periods: stepped, descending, hand-picked, repeated): at every
+written period it has the original series' own row, at every other period a NaN row -/
+theorem reimport_rowAt (dh : String × Ser V → String) (b : Block V) (p : String × Ser V) (hf : b.freq ≠ .U)
+    (hne : b.periods ≠ []) (hrows : ∀ r ∈ p.2.rows, r.length = p.2.nv) (t : Int) :
+    (reimport dh b p).2.rowAt t = if t ∈ b.periods then p.2.rowAt t else nanRow p.2.nv := by
+  cases hper : b.periods with
+  | nil => exact absurd hper hne
+  | cons p0 ps =>
+    have e : (reimport dh b p).2 = (setDataRaw b.freq p.2.nv (dh p) p0 ps ((p0 :: ps).map p.2.rowAt)).trim := by
+      simp only [reimport, hf, if_false, hper]; rfl
+    rw [e, trim_rowAt _ (setDataRaw_rows_width _ _ _ _ _ _ (by
+      intro r hr
+      obtain ⟨x, _, rfl⟩ := List.mem_map.mp hr
+      exact rowAt_length p.2 hrows x))]
+    exact setDataRaw_rowAt_fun b.freq p.2.nv (dh p) p0 ps p.2.rowAt t
+
+/-! ### the layout of the written grid -/
+
+/-- **the written grid is rectangular**, for any mix of block lengths and variant counts and any selection of periods: every
+row -- name row, description row, data rows, padding rows -- has one cell per block for the date, one per variant of every
+series of the block (`Block.width` = 1 + Σ variants + 1), and nothing else -/
+theorem exportGridWith_rectangular (c : Codec V) (d : Bool) (fs : FSpan) (db : Box (Ser V) V)
+    (hn : GoodNames (seriesOf db)) (hrows : ∀ p ∈ seriesOf db, ∀ r ∈ p.2.rows, r.length = p.2.nv)
+    (hfit : ∀ b ∈ exportBlocksWith fs (seriesOf db), b.periods.length ≤ totalRowsWith fs (seriesOf db)) :
+    ∀ r ∈ exportGridWith c d fs db, r.length = widths (exportBlocksWith fs (seriesOf db)) := by
+  intro r hr
+  unfold exportGridWith at hr
+  by_cases hB : (exportBlocksWith fs (seriesOf db)).isEmpty = true
+  · simp [hB] at hr
+  · simp only [hB, Bool.false_eq_true, if_false] at hr
+    rw [grid_eq c d _ _ hfit] at hr
+    have hnames := goodNames_exportBlocksWith fs _ hn
+    have hsers : ∀ x ∈ exportBlocksWith fs (seriesOf db), ∀ p ∈ x.members, ∀ r ∈ p.2.rows, r.length = p.2.nv := by
+      intro x hx p hp
+      unfold exportBlocksWith at hx
+      obtain ⟨e, _, hxe⟩ := List.mem_filterMap.mp hx
+      dsimp only at hxe
+      split at hxe
+      · simp at hxe
+      · simp only [Option.some.injEq] at hxe
+        subst hxe
+        exact hrows p (List.mem_filter.mp hp).1
+    have hgrid : ∀ i, ∀ x ∈ exportBlocksWith fs (seriesOf db), (x.gridRow c i).length = x.width := by
+      intro i x hx
+      unfold Block.gridRow
+      split
+      · rename_i t _
+        have : (x.members.flatMap (fun p => (p.2.rowAt t).map c.fmtCell)).length = (x.members.map (fun p => p.2.nv)).sum := by
+          have hs := hsers x hx
+          generalize x.members = m at hs
+          induction m with
+          | nil => rfl
+          | cons p ps ih =>
+            simp only [List.flatMap_cons, List.length_append, List.length_map, List.map_cons, List.sum_cons]
+            rw [rowAt_length p.2 (hs p (by simp)) t, ih (fun q hq => hs q (List.mem_cons_of_mem _ hq))]
+        simp [Block.dataRow, Block.width, this]; omega
+      · simp [Block.emptyRow]
+    simp only [List.mem_cons, List.mem_append] at hr
+    rcases hr with rfl | hr | hr
+    · exact flatMap_seg_length Block.nameRow _ (fun x hx => nameRow_length x (hnames x hx))
+    · cases d with
+      | true =>
+        simp only [if_true, List.mem_singleton] at hr
+        subst hr
+        exact flatMap_seg_length Block.descRow _ (fun x hx => descRow_length x (hnames x hx))
+      | false => simp at hr
+    · simp only [dataRowsOf, List.mem_map] at hr
+      obtain ⟨i, _, rfl⟩ := hr
+      exact flatMap_seg_length (fun x => x.gridRow c i) _ (hgrid i)
+
+end
+
 end IrisVerif.Grid
